@@ -468,6 +468,68 @@ def rule_R16_3(ctx):
     return r
 
 
+def _mismatch_sites(prog, r, dl, A, B):
+    """Construction sites of the comparison helper's mismatch value (the `E`
+    of its `Result<bool, E>`): component A names the lhs operand's type,
+    component B the rhs operand's."""
+    import anchors
+    g = dl[0]
+    li, ri = dl.li, dl.ri
+    head, args = anchors._generic_args(g.locals[0])
+    if head != "std::result::Result" or len(args) != 2:
+        r.unproven.append("%s does not return a Result: mismatch value not checked" % g.path)
+        return
+    E = args[1]
+    sites = 0
+    for bb, i, pl, rv, sp in g.assigns():
+        if rv[0] != "agg" or pl[1] or g.locals[pl[0]] != E or g.is_cleanup(bb):
+            continue
+        kd, aops = rv[1], rv[2]
+        if kd.get("k") not in ("tuple", "adt") or max(A, B) >= len(aops):
+            continue
+        sites += 1
+        verdicts = {}
+        for pos, want, label in ((A, li, "lhs"), (B, ri, "rhs")):
+            cp = [p for p in g.canon_op(aops[pos]) if p not in ("&", "*")]
+            fl = [p for p in cp if p[0] == "f"]
+            root = cp[0] if cp else None
+            src_ty = ""
+            if root and root[0] == "call":
+                cc = g.call_at(root[1])
+                src_ty = (cc.dstty or "") if cc is not None else ""
+            elif root and root[0] in ("local", "arg"):
+                src_ty = g.locals[root[1]]
+            if fl and E in src_ty:
+                verdicts[label] = ("pass-through", fl[-1][1] == pos)
+                continue
+            params = set()
+            if root and root[0] == "call":
+                cc = g.call_at(root[1])
+                for a in (cc.args if cc is not None else []):
+                    if mir.is_place_operand(a):
+                        ar = [p for p in g.canon_op(a) if p not in ("&", "*")]
+                        if ar and ar[0][0] == "arg":
+                            params.add(ar[0][1])
+            elif root and root[0] == "arg":
+                params.add(root[1])
+            if params:
+                verdicts[label] = ("from parameter %s" % sorted(params), params == {want})
+            else:
+                verdicts[label] = ("unknown", None)
+        r.inst("%s: mismatch value built with %s" % (g.path, {k: v[0] for k, v in verdicts.items()}))
+        if all(v[1] is True for v in verdicts.values()):
+            r.ok()
+        elif any(v[1] is False for v in verdicts.values()):
+            r.fail("%s | mismatch value operands %s" % (g.path, ",".join("%s:%s" % (k, v[0]) for k, v in sorted(verdicts.items()))),
+                   "the comparison's mismatch value must name the lhs operand's "
+                   "type in component %d and the rhs operand's in component %d "
+                   "(these are the ones InvalidEqOpTypes reports as lhs_type and "
+                   "rhs_type); found %s" % (A, B, verdicts), where=mir.span_loc(sp))
+        else:
+            r.unproven.append("%s: origin of a mismatch component not recognised (%s)" % (g.path, verdicts))
+    r.require_floor("construction sites of the comparison's mismatch value", sites, 1)
+
+
 def rule_R16_4(ctx):
     import prov
     prog = ctx.prog
@@ -526,7 +588,18 @@ def rule_R16_4(ctx):
                        "Error::InvalidOpTypes must carry (lhs, rhs) = the "
                        "operator function's lhs and rhs parameters (%s, %s); "
                        "found %s" % (want["lhs"], want["rhs"], got), where=mir.span_loc(sp))
+    # InvalidEqOpTypes is specific to `==`/`!=`: wherever it is built (the
+    # operator function, or a conversion method of the comparison's own
+    # mismatch type), its two type names are two distinct components A, B of
+    # the comparison's mismatch value ...
+    conv = []
+    seen_sites = set()
+    for g in [f] + prog.closures_of(f.path) + helpers_ + \
+            [h for h in prog.hand_fns() if not h.from_expansion and h.impl_trait is None]:
         for bb, i, pl, kd, aops, sp in g.aggregates(ERR, "InvalidEqOpTypes"):
+            if i < 0 or (g.path, bb, i) in seen_sites:
+                continue
+            seen_sites.add((g.path, bb, i))
             n += 1
             idx = {}
             for name in ("lhs_type", "rhs_type"):
@@ -535,13 +608,27 @@ def rule_R16_4(ctx):
                 idx[name] = fl[-1][1] if fl else None
             r.inst("%s: InvalidEqOpTypes{lhs_type <- .%s, rhs_type <- .%s of the comparison's error}" % (
                 g.path, idx["lhs_type"], idx["rhs_type"]))
-            if idx == {"lhs_type": 1, "rhs_type": 2}:
+            if idx["lhs_type"] is not None and idx["rhs_type"] is not None and idx["lhs_type"] != idx["rhs_type"]:
+                conv.append((idx["lhs_type"], idx["rhs_type"]))
                 r.ok()
             else:
                 r.fail("%s | InvalidEqOpTypes operands %s" % (g.path, idx),
                        "Error::InvalidEqOpTypes must take the (lhs type, rhs "
-                       "type) components of the comparison's error in order", where=mir.span_loc(sp))
+                       "type) components of the comparison's error", where=mir.span_loc(sp))
     r.require_floor("operator type-error construction sites", n, 2)
+    # ... and the comparison helper fills A from its lhs operand and B from its
+    # rhs operand (or hands an inner mismatch on with A and B in place)
+    if conv and len(set(conv)) == 1:
+        A, B = conv[0]
+        pt_ = ops.PairTable(prog, f, [(op_p, ops.BINOP), (lhs_p, VALUE), (rhs_p, VALUE)])
+        dl = delegated_table(prog, f, pt_, "Eq", lhs_p, rhs_p)
+        if dl is None:
+            r.unproven.append("comparison helper not found: construction of the mismatch value not checked")
+        else:
+            _mismatch_sites(prog, r, dl, A, B)
+    elif conv:
+        r.fail("%s | InvalidEqOpTypes conversion sites disagree %s" % (f.path, sorted(set(conv))),
+               "the sites building InvalidEqOpTypes read different components of the mismatch value")
     d = prog.fns.get("<eval::error::Error as std::fmt::Display>::fmt")
     if d is None:
         r.anchor_missing("<Error as Display>::fmt")
